@@ -109,9 +109,24 @@ def oversize() -> Iterator[bytes]:
         yield r + b"\x00" * (total - len(r))
 
 
+def echoed_fields() -> Iterator[bytes]:
+    """Well-formed queries whose 16-bit fields come back in the reply (transaction id; type and class of an echoed question;
+    the number of echoed questions) swept over small values and the powers of two: every value the encoder's short-integer
+    paths can meet."""
+    values = list(range(0, 260)) + [511, 512, 513, 1023, 1024, 4095, 4096, 32767, 32768, 65534, 65535]
+    for v in values:
+        yield wire.query([("Q", TA, 12, 1)], id_=v)
+    for v in values[1:]:
+        yield wire.query([("Q", TA, 12, 1), ("Q", "other.local.", v, 1)], id_=7)
+        yield wire.query([("Q", TA, 12, 1), ("Q", "other.local.", 1, v)], id_=7)
+    for n in (2, 3, 127, 128, 129, 255, 256, 257):
+        yield wire.query([("Q", TA, 12, 1)] + [("Q", f"n{i}.local.", 1, 1) for i in range(n - 1)], id_=9)
+
+
 def corpus(tier: str) -> List[Tuple[str, bytes]]:
     seeds = D.seeds()
     out: List[Tuple[str, bytes]] = []
+    out += [("echoed", d) for d in echoed_fields()]
     out += [("hazard", d) for d in echo_hazards()]
     out += [("rhazard", d) for d in response_hazards()]
     out += [("oversize", d) for d in oversize()]
@@ -397,6 +412,8 @@ def run(tier: str, seed: int) -> Tuple[Stats, str, List[str], Dict[str, Any]]:
     for kind, d in corp:
         if kind in ("hazard", "rhazard", "oversize", "family"):
             srcs = range(len(SOURCES))
+        elif kind == "echoed":
+            srcs = (1, 3)  # source ports other than 5353: the reply echoes id and questions
         elif kind == "mutation":
             srcs = (0, 1) if tier == "quick" else range(len(SOURCES))
         else:
